@@ -1,10 +1,19 @@
 """Replay of witnesses / counterexamples against the REAL crates: /verif/replay is copied next to a PRISTINE copy of
 /repo's working tree (no splice) and built natively with the repository's own toolchain; each witness binary exits 0
 when the property holds for its input and 1 when the real code violates it."""
-import os, sys, json, shutil, fcntl
+import subprocess, os, sys, json, shutil, fcntl
 import runner as R
 
 _built = {}
+
+
+def _prune(tgt, limit_gb=4):
+    """the shared target directory only caches; throw it away when it grows (stale artefacts of earlier trees)"""
+    try:
+        out = subprocess.run(['du', '-s', '--block-size=1M', tgt], stdout=subprocess.PIPE).stdout.decode().split()
+        if out and int(out[0]) > limit_gb * 1024: shutil.rmtree(tgt, ignore_errors=True)
+    except Exception:
+        pass
 
 
 def build(scratch):
@@ -20,7 +29,8 @@ def build(scratch):
     os.makedirs(R.CACHE, exist_ok=True)
     with open(os.path.join(R.CACHE, 'replay.lock'), 'w') as lk:
         fcntl.flock(lk, fcntl.LOCK_EX)
-        rc, out, err, wall = R.run(['cargo', 'build', '--offline', '--bins'], cwd=os.path.join(work, 'replay'), env={'CARGO_TARGET_DIR': tgt}, timeout=1800)
+        _prune(tgt)
+        rc, out, err, wall = R.run(['cargo', 'build', '--offline', '--bins'], cwd=os.path.join(work, 'replay'), env={'CARGO_TARGET_DIR': tgt, 'CARGO_INCREMENTAL': '0'}, timeout=1800)
         if rc != 0:
             _built[scratch] = (None, err[-3000:])
             return _built[scratch]
